@@ -54,7 +54,7 @@ func (e *varsignEngine) Property() string { return "C06" }
 func (e *varsignEngine) Plan(seed uint64, tier string) int {
 	n := 12000
 	if tier == "thorough" {
-		n = 400000
+		n = 1600000
 	}
 	if e.tz {
 		n /= 8
